@@ -25,10 +25,10 @@ Definition run_elected : state :=
 
 Definition run_committed : state :=
   do_advance 1 1 (do_recv_ack 1 ack1 (do_recv_ok 2 req1
-    (do_send_append 1 0 1 (do_client_append 1 0 run_elected)))).
+    (do_send_append 1 0 1 0 (do_client_append 1 0 run_elected)))).
 
 Definition run_followers : state :=
-  do_recv_append 3 req2 (do_recv_ok 2 req2 (do_send_append 1 1 0 run_committed)).
+  do_recv_append 3 req2 (do_recv_ok 2 req2 (do_send_append 1 1 0 1 run_committed)).
 
 Definition run_crashed : state :=
   do_crash 1 (do_client_append 1 7 run_followers).
@@ -69,11 +69,11 @@ Qed.
 Lemma reachable_run_followers : Reachable V3 run_followers.
 Proof.
   unfold run_followers.
-  assert (H2 : Reachable V3 (do_recv_ok 2 req2 (do_send_append 1 1 0 run_committed))).
+  assert (H2 : Reachable V3 (do_recv_ok 2 req2 (do_send_append 1 1 0 1 run_committed))).
   { eapply R_step; [| apply SRecvAppend; chk ].
     eapply R_step; [| apply SSendAppend; chk ].
     exact reachable_run_committed. }
-  destruct (recv_append_refines V3 (do_recv_ok 2 req2 (do_send_append 1 1 0 run_committed)) 3 req2)
+  destruct (recv_append_refines V3 (do_recv_ok 2 req2 (do_send_append 1 1 0 1 run_committed)) 3 req2)
     as [Heq|Hst].
   - chk.
   - chk.
@@ -120,7 +120,7 @@ Proof.
   unfold run_crashed, run_followers.
   eapply steps_step; [| apply SCrash ].
   eapply steps_step; [| apply SClientAppend; chk ].
-  destruct (recv_append_refines V3 (do_recv_ok 2 req2 (do_send_append 1 1 0 run_committed)) 3 req2)
+  destruct (recv_append_refines V3 (do_recv_ok 2 req2 (do_send_append 1 1 0 1 run_committed)) 3 req2)
     as [Heq|Hst]; [chk | chk | |].
   - rewrite Heq.
     eapply steps_step; [| apply SRecvAppend; chk ].
@@ -151,7 +151,7 @@ Definition run8_b : state :=
 Definition run8_c : state :=
   do_win 1 (do_count 1 2 (do_count 1 1 (do_grant 2 4 1 (do_start 1 (do_start 1 (do_follow 1 run8_b)))))).
 Definition run8 : state :=
-  do_advance 1 2 (do_recv_ack 1 ack8 (do_recv_ok 2 req8 (do_send_append 1 0 2 (do_client_append 1 6 run8_c)))).
+  do_advance 1 2 (do_recv_ack 1 ack8 (do_recv_ok 2 req8 (do_send_append 1 0 2 0 (do_client_append 1 6 run8_c)))).
 
 Lemma reachable_run8 : Reachable V3 run8.
 Proof.
